@@ -17,6 +17,8 @@ import Driver.Resume
 import Driver.Negotiate
 import Driver.GMDecode
 import Driver.Intrinsic
+import Driver.Handshake
+import Driver.HandshakeAuth
 open Gmsm
 
 def dispatch (toks : List String) : String :=
@@ -42,6 +44,12 @@ def dispatch (toks : List String) : String :=
     | some r => r
     | none =>
     match Driver.intrinsicDispatch toks with
+    | some r => r
+    | none =>
+    match Driver.handshakeDispatch toks with
+    | some r => r
+    | none =>
+    match Driver.handshakeAuthDispatch toks with
     | some r => r
     | none =>
     match toks with
